@@ -10,7 +10,7 @@ def decVariant : Json → Except String Variant
 
 def decVariants (j : Json) : Except String Variants := do
   return ⟨← decVariant (← field j "lookup"), ← decVariant (← field j "media"), ← decVariant (← field j "hdrRef"),
-          ← decVariant (← field j "ctError")⟩
+          ← decVariant (← field j "ctError"), ← decVariant (← field j "hdrKw"), ← decVariant (← field j "hdrType")⟩
 
 /-- [name, schema|null] -/
 def decMedia : Json → Except String Media
@@ -18,9 +18,10 @@ def decMedia : Json → Except String Media
   | .arr [n, s] => do return ⟨← asChars n, some s⟩
   | _ => .error "bad media"
 
-/-- [name, isRef, required, schema] -/
+/-- [name, isRef, required, schema, target|null] -/
 def decHeader : Json → Except String HeaderDef
-  | .arr [n, r, q, s] => do return ⟨← asChars n, ← asBool r, ← asBool q, s⟩
+  | .arr [n, r, q, s, .null] => do return ⟨← asChars n, ← asBool r, ← asBool q, s, none⟩
+  | .arr [n, r, q, s, t] => do return ⟨← asChars n, ← asBool r, ← asBool q, s, some t⟩
   | _ => .error "bad header"
 
 def decRespDef (j : Json) : Except String RespDef := do
@@ -29,7 +30,7 @@ def decRespDef (j : Json) : Except String RespDef := do
 
 def decDoc (j : Json) : Except String Doc := do
   return ⟨← asBool (← field j "v2"), ← asPairs asChars decRespDef (← field j "responses"),
-          ← asList asChars (← field j "produces")⟩
+          ← asList asChars (← field j "produces"), ← asBool (← field j "v31")⟩
 
 /-- body: ["json", v] | ["malformed"] -/
 def decBody : Json → Except String (Option Json)
@@ -59,10 +60,23 @@ def encMedia : Option (List Char × List Char) → Json
   | some (m, t) => .arr [jstr m, jstr t]
   | none => .null
 
-def checksOf (V : Json → Json → Bool) (vs : Variants) (doc : Doc) (r : Resp) : Json :=
+/-- the model: validity `W` handed the checker of each call site over the truth `F` -/
+def checksOf (W : (String → Json → Bool) → Json → Json → Bool) (F : String → Json → Bool) (vs : Variants) (doc : Doc)
+    (r : Resp) : Json :=
   jobj [("status", encOut (statusCheck doc r)), ("content_type", encOut (contentTypeCheck vs doc r)),
-        ("headers", encOut (headersCheck V vs doc r)), ("body", encOut (bodyCheck V vs doc r)),
-        ("all", encOut (runAll V vs doc r))]
+        ("headers", encOut (headersCheck (W (checkerFmt (headerChecker doc.flavour) F)) vs doc r)),
+        ("body", encOut (bodyCheck (W (checkerFmt (bodyChecker doc.flavour) F)) vs doc r)),
+        ("all", encOut (runAllF W F vs doc r))]
+
+def draftName : Draft → String
+  | .d4 => "Draft4Validator" | .d6 => "Draft6Validator" | .d7 => "Draft7Validator"
+  | .d201909 => "Draft201909Validator" | .d202012 => "Draft202012Validator"
+
+def flavourName : Flavour → String
+  | .swagger2 => "2.0" | .openapi30 => "3.0" | .openapi31 => "3.1"
+
+def allDrafts : List Draft := [.d4, .d6, .d7, .d201909, .d202012]
+def allFlavours : List Flavour := [.swagger2, .openapi30, .openapi31]
 
 def matchedBy (doc : Doc) (status : Nat) : String :=
   if (findKey (digitsOf status) doc.responses).isSome then "exact"
@@ -94,11 +108,21 @@ def handle : Handler := fun op a => do
     let r ← decResp (← field a "resp")
     let env ← SV.Spec.JsonSchema.decEnv (a.getD "env" (.obj []))
     let vs ← decVariants (← field a "variants")
-    let V := SV.Spec.JsonSchema.validF 64 env
+    -- `env.fmt` is the truth F of the format predicates; the model hands validity the checker of the call site, the
+    -- specification hands it every defined format
+    let F := env.fmt
+    let W : (String → Json → Bool) → Json → Json → Bool := fun fmt => SV.Spec.JsonSchema.validF 64 { env with fmt := fmt }
+    let V := W (specFmt F)
     return jobj [
-      ("model", checksOf V vs doc r),
-      ("asFound", checksOf V Variants.allAsFound doc r),
-      ("repaired", checksOf V Variants.allRepaired doc r),
+      ("model", checksOf W F vs doc r),
+      ("asFound", checksOf W F Variants.allAsFound doc r),
+      ("repaired", checksOf W F Variants.allRepaired doc r),
+      -- the headers verdict with ONE site repaired on top of the variants in force (attribution of known findings)
+      ("flip", jobj [
+        ("lookup", encOut (headersCheck (W (checkerFmt (headerChecker doc.flavour) F)) { vs with lookup := .repaired } doc r)),
+        ("hdrRef", encOut (headersCheck (W (checkerFmt (headerChecker doc.flavour) F)) { vs with hdrRef := .repaired } doc r)),
+        ("hdrKw", encOut (headersCheck (W (checkerFmt (headerChecker doc.flavour) F)) { vs with hdrKw := .repaired } doc r)),
+        ("hdrType", encOut (headersCheck (W (checkerFmt (headerChecker doc.flavour) F)) { vs with hdrType := .repaired } doc r))]),
       ("spec", jobj [("status", .bool (devStatus doc r)), ("content_type", .bool (devContentType doc r)),
                      ("headers", .bool (devHeaders V doc r)), ("body", .bool (devBody V doc r)),
                      ("deviates", .bool (deviates V doc r))]),
@@ -106,8 +130,26 @@ def handle : Handler := fun op a => do
                    ("ct_ok", .bool (match r.contentType with | some ct => (refParse ct).isSome | none => false)),
                    ("no_range_only", .bool (noRangeOnly doc r.status)), ("single_media", .bool (singleMedia doc)),
                    ("no_required_ref_header", .bool (noRequiredRefHeader doc)),
-                   ("produces", .bool (producesWf doc)), ("ct_no_crash", .bool (ctNoCrash r))]),
+                   ("produces", .bool (producesWf doc)), ("ct_no_crash", .bool (ctNoCrash r)),
+                   ("plain_headers", .bool (plainHeaders doc))]),
       ("matched", .str (matchedBy doc r.status))]
+  | "formats" =>
+    -- {} → the registration tables of the model and the specification's list
+    return jobj [
+      ("drafts", jobj (allDrafts.map fun d => (draftName d, .arr (d.formats.map .str)))),
+      ("asserted", .arr (assertedFormats.map .str)),
+      ("validator_cls", jobj (allFlavours.map fun fl => (flavourName fl, .str (draftName (validatorCls fl))))),
+      ("header_checker", jobj (allFlavours.map fun fl => (flavourName fl, .str (draftName (headerChecker fl))))),
+      ("body_checker", jobj (allFlavours.map fun fl => (flavourName fl, .str (draftName (bodyChecker fl)))))]
+  | "prep" =>
+    -- {"flavour": "2.0"|"3.0"|"3.1", "schema": json} → the header schema `as_json_schema` produces (as found)
+    let fl ← match ← field a "flavour" with
+      | .str "2.0" => pure Flavour.swagger2
+      | .str "3.0" => pure Flavour.openapi30
+      | .str "3.1" => pure Flavour.openapi31
+      | _ => .error "bad flavour"
+    let s ← field a "schema"
+    return convertDefault fl (filterKw fl s)
   | _ => .error s!"unknown op {op}"
 
 def main : IO Unit := run handle
